@@ -4,6 +4,10 @@
 //!        cachelito-replay --history FILE   replay a history written by --search under the same oracle
 //!        cachelito-replay --macro-search ...  bounded check of the real #[cache] / #[cache_async] wrappers (macro_search.rs)
 //!        cachelito-replay --macro-scenario NAME  re-run one scenario of --macro-search
+//!        cachelito-replay --macro-history ...  random call / invalidation histories on decorated functions (macro_history.rs)
+//!        cachelito-replay --macro-history-replay FILE  re-run a history file written by --macro-history
+//!        cachelito-replay --registry-search ...  random histories on the real InvalidationRegistry (registry_search.rs)
+//!        cachelito-replay --registry-replay FILE  re-run a history file written by --registry-search
 //! Scenarios are the concrete inputs named in /verif/known_findings.txt and in replay files
 //! written by bin/check. Nothing here is a model: every scenario drives /repo's own code.
 use cachelito_core::{AsyncGlobalCache, CacheEntry, CacheStats, EvictionPolicy, GlobalCache, ThreadLocalCache};
@@ -14,7 +18,9 @@ use std::cell::RefCell;
 use std::collections::{HashMap, VecDeque};
 
 mod history;
+mod macro_history;
 mod macro_search;
+mod registry_search;
 mod search;
 
 thread_local! {
@@ -189,6 +195,12 @@ fn main() {
     }
     if args.iter().any(|a| a == "--macro-search" || a == "--macro-scenario") {
         std::process::exit(macro_search::main_macro(&args[1..]));
+    }
+    if args.iter().any(|a| a == "--macro-history" || a == "--macro-history-replay") {
+        std::process::exit(macro_history::main_history(&args[1..]));
+    }
+    if args.iter().any(|a| a == "--registry-search" || a == "--registry-replay") {
+        std::process::exit(registry_search::main_registry(&args[1..]));
     }
     if let Some(i) = args.iter().position(|a| a == "--history") {
         let selftest = args.iter().any(|a| a == "--selftest-oracle");
